@@ -102,6 +102,12 @@ def build_feed(rng, n_lines, malformed, limit_parsing=False):
         elif roll < 0.85:
             # one in five comes as DF18 (TIS-B / ADS-R carry the address in the same place)
             fr = enc.long_frame(18 if (rng.random() < 0.2 and not limit_parsing) else 17, rng.randrange(8), a, enc.me_unique(rng.choice([0, 23, 25, 27]), counter))
+            if rng.random() < 0.05 or k == 3:
+                # a bit error in the parity field: the frame still decodes (with a non-zero
+                # checksum) and the clients pass it on like any other
+                b = bytearray(fr)
+                b[11 + rng.randrange(3)] ^= 1 << rng.randrange(8)
+                fr = bytes(b)
             if rng.random() < 0.06 or k == 1:
                 # bytes behind the frame (a feeder that pads its records): still this frame
                 fr = fr + bytes(rng.getrandbits(8) for _ in range(rng.choice([1, 2, 7, 14])))
